@@ -273,6 +273,44 @@ def run(check):
     r_r.violate('new data does not reactivate the interval', ib.key, None, 'IntervalBuffer.input does not reset inactive_since: values '
                 'received after an emission are never emitted', construct='self.inactive_since = None')
 
+  # ------------------------------------------------------------------ nothing is pruned before it had its chance to be emitted
+  r_e = check.rule('R-C08-emit-before-prune', 2, 'an interval buffer is only deleted when it is inactive, or after the emit pass')
+  if cv is not None:
+    g = cx.cfg(cv)
+    emit_nodes = nodes_calling(g, lambda c: (dotted(c.func) or '').endswith('metricGenerated'))
+    emit_loops = [n for n in g.nodes if n.kind == 'loop' and n.owner is not None and any(e in g.in_loop_nodes(n.owner) for e in emit_nodes)]
+    dels = [n for n in g.nodes if n.kind == 'stmt' and isinstance(n.ast, ast.Delete) and
+            'self.interval_buffers[' in unparse(n.ast).replace(' ', '')]
+    dels += nodes_calling(g, lambda c: isinstance(c.func, ast.Attribute) and c.func.attr in ('pop', 'clear', 'popitem') and
+                          dotted(c.func.value) == 'self.interval_buffers')
+    if not emit_loops:
+      r_e.cannot_decide('emit loop of compute_value not recognised')
+    for d in dels:
+      in_emit_loop = any(d in g.in_loop_nodes(lp.owner) for lp in emit_loops)
+      if in_emit_loop:
+        # must be on the "not active" side of the inactive_since test
+        def active_true(a, lab, b):
+          if not (isinstance(lab, tuple) and isinstance(lab[1], ast.Compare) and len(lab[1].ops) == 1):
+            return False
+          t = lab[1]
+          return unparse(t.left).endswith('.inactive_since') and isinstance(t.comparators[0], ast.Constant) and \
+            t.comparators[0].value is None and ((isinstance(t.ops[0], ast.Is) and lab[0] == 'F') or (isinstance(t.ops[0], ast.IsNot) and lab[0] == 'T'))
+        lp = [l for l in emit_loops if d in g.in_loop_nodes(l.owner)][0]
+        start = [y for y, lab in lp.succ if isinstance(lab, tuple) and lab[0] == 'T']
+        if d in g.reach(start, removed_edge=active_true, removed_nodes=set(emit_nodes), normal_only=True):
+          r_e.violate('active interval deleted in the emit pass', cv, d.ast, 'an interval buffer can be deleted inside the emit loop '
+                      'without having been found inactive (or emitted first)')
+        else:
+          r_e.ok('deletion inside the emit pass only for inactive (already emitted) buffers', cv.loc(d.ast))
+      else:
+        exhausted = lambda a, lab, b: a in emit_loops and isinstance(lab, tuple) and lab[0] == 'F'   # noqa
+        if emit_loops and d not in g.reach([g.entry], removed_edge=exhausted, normal_only=True):
+          r_e.ok('deletion only after the emit pass completed', cv.loc(d.ast))
+        else:
+          r_e.violate('interval deleted before it was emitted', cv, d.ast, 'this deletion of interval buffers can run before the emit '
+                      'pass: buffers that still hold values received since their last emission are dropped and those values never '
+                      'reach any aggregate')
+
   # ------------------------------------------------------------------ prune / release
   r_p = check.rule('R-C08-prune-release', 3, 'every flush bounds the buffered intervals and releases idle series')
   if cv is not None:
@@ -475,7 +513,20 @@ def run(check):
         r_x.cannot_decide('regex fragment `%s` not recognised' % short(v))
         continue
       if "'<<'" in ctx:
-        r_x.ok('<<field>> fragment may span segments by design: %r' % tpl, br.loc(a))
+        loopvars = {lp.target.id for lp in ast.walk(br.node) if isinstance(lp, ast.For) and isinstance(lp.target, ast.Name)}
+        test_names = set()
+        q = getattr(a, '_parent', None)
+        while q is not None and q is not br.node:
+          if isinstance(q, ast.If) and "'<<'" in unparse(q.test):
+            test_names = {x.id for x in ast.walk(q.test) if isinstance(x, ast.Name)}
+            break
+          q = getattr(q, '_parent', None)
+        if test_names & loopvars:
+          r_x.ok('<<field>> fragment (may span segments by design) chosen per pattern part: %r' % tpl, br.loc(a))
+        else:
+          r_x.violate('<<field>> matching chosen for the whole pattern', br, a, 'the dot-crossing fragment %r is selected by `%s`, which '
+                      'does not look at the current part of the pattern: a single-bracket <field> in a pattern that also contains a '
+                      '<<field>> then matches across dots' % (tpl, ctx))
         continue
       okf, why = _class_excludes_dot(tpl)
       if okf:
@@ -483,6 +534,18 @@ def run(check):
       else:
         r_x.violate('fragment can cross a segment boundary', br, a, 'the regex fragment %r used for %s %s: a <field> or * would match '
                     'across dots' % (tpl, 'a pattern part' if not ctx else '`%s`' % ctx, why))
+    for n in walk_no_nested(br.node, include_self=False):
+      if isinstance(n, ast.Constant) and isinstance(n.value, str) and n.value in ('.+?', '.+', '.*', '.*?', '(.+?)', '(.+)'):
+        st = n
+        while st is not None and not isinstance(st, ast.stmt):
+          st = getattr(st, '_parent', None)
+        if st in frags:
+          continue
+        in_loop = any(isinstance(q, ast.For) for q in __import__('sa.model', fromlist=['ancestors']).ancestors(n))
+        if not in_loop:
+          r_x.violate('dot-crossing class chosen outside the per-part loop', br, st, 'the regex class %r (matches ".") is selected once for '
+                      'the whole pattern (`%s`), not per pattern part: every <field> of a pattern that contains a <<field>> then '
+                      'matches across dots' % (n.value, ' '.join(unparse(st).split())[:80]))
     txt = unparse(br.node).replace(' ', '')
     if any(("'\\\\.'.join(%s)+'$'" % lv) in txt or ("'\\\\.'.join(%s)+'\\\\Z'" % lv) in txt for lv in list_vars if lv):
       r_x.ok('parts joined by an escaped dot, pattern end-anchored', br.loc())
